@@ -221,6 +221,15 @@ func init() {
 	builders["qr-gs1"] = func() *image.Gray {
 		return gray(must(qw().Encode("0112345678901231", gozxing.BarcodeFormat_QR_CODE, 0, 0, H{gozxing.EncodeHintType_GS1_FORMAT: true})), 3, 12)
 	}
+	for _, cs := range []struct{ key, charset, text string }{
+		{"qr-utf16be", "UTF-16BE", "日本語ΩЖ é"}, {"qr-gb18030", "GB18030", "汉字编码 gb"}, {"qr-euckr", "EUC-KR", "한글 테스트"},
+		{"qr-big5", "Big5", "繁體中文"}, {"qr-sjis-byte", "Shift_JIS", "ｶﾀｶﾅ and 漢字"}, {"qr-1251", "windows-1251", "Привет, мир"},
+	} {
+		cs := cs
+		builders[cs.key] = func() *image.Gray {
+			return gray(must(qw().Encode(cs.text, gozxing.BarcodeFormat_QR_CODE, 0, 0, H{gozxing.EncodeHintType_CHARACTER_SET: cs.charset})), 2, 8)
+		}
+	}
 	builders["aztec-c"] = func() *image.Gray {
 		s, err := refaztec.EncodeAuto(refaztec.AutoEncode([]byte("Aztec compact")), 33)
 		if err != nil {
@@ -295,6 +304,19 @@ func rsRoundTrip(f *reedsolomon.GenericGF, k, r int, size int) string {
 	return fmt.Sprint(c[:4], c[k:k+2], fmt.Sprint(c) == fmt.Sprint(w))
 }
 
+func parseRoundTrip(w, h, step int) string {
+	m, _ := gozxing.NewBitMatrix(w, h)
+	for i := 0; i < w*h; i += step {
+		m.Set(i%w, i/w)
+	}
+	str := m.ToString("X ", "  ")
+	p, e := gozxing.ParseStringToBitMatrix(str, "X ", "  ")
+	if e != nil {
+		return errKind(e)
+	}
+	return hashM(p) + fmt.Sprint(hashM(p) == hashM(m))
+}
+
 // All returns the operation alphabet; the images named in Needs must be prepared before an
 // operation runs.
 func All() []Op {
@@ -317,6 +339,8 @@ var needs = map[string][]string{
 	"ean13-r-addon5": {"ean13+5"}, "ean13-r-addon2": {"ean13+2"}, "multi-r-upca-addon5": {"upca+5"}, "ean8-r-addon-wrong-parity": {"ean8+2-wrong"},
 	"ean13-r-addon-required": {"ean13+5"}, "code39-r-check": {"code39chk"}, "code128-r-gs1": {"code128gs1"}, "itf-r-allowed-lengths": {"itf6"},
 	"codabar-r-startend": {"codabar"}, "dm-r-macro": {"dm-macro"}, "qr-r-gs1": {"qr-gs1"},
+	"qr-r-utf16be": {"qr-utf16be"}, "qr-r-gb18030": {"qr-gb18030"}, "qr-r-euckr": {"qr-euckr"}, "qr-r-big5": {"qr-big5"}, "qr-r-sjis-byte": {"qr-sjis-byte"}, "qr-r-1251": {"qr-1251"},
+	"qr-r-hint-charset": {"qr-pure"}, "lum-views": {"qr-pure"},
 	"code93-r": {"code93"}, "code128-r": {"code128"}, "itf-r": {"itf"}, "codabar-r": {"codabar"}, "rss14-r": {"rss14"},
 }
 
@@ -438,6 +462,67 @@ func all() []opLit {
 		}},
 		{"code128-w-forced-c", func() string {
 			return write(oned.NewCode128Writer(), "12345678", gozxing.BarcodeFormat_CODE_128, 0, 5, H{gozxing.EncodeHintType_FORCE_CODE_SET: "C"})
+		}},
+
+		{"qr-w-utf16be", func() string {
+			return write(qrcode.NewQRCodeWriter(), "日本語ΩЖ é", QR, 0, 0, H{gozxing.EncodeHintType_CHARACTER_SET: "UTF-16BE"})
+		}},
+		{"qr-w-gb18030", func() string {
+			return write(qrcode.NewQRCodeWriter(), "汉字编码 gb", QR, 0, 0, H{gozxing.EncodeHintType_CHARACTER_SET: "GB18030"})
+		}},
+		{"qr-r-utf16be", func() string { return read(qrcode.NewQRCodeReader(), img("qr-utf16be"), nil) }},
+		{"qr-r-gb18030", func() string { return read(qrcode.NewQRCodeReader(), img("qr-gb18030"), nil) }},
+		{"qr-r-euckr", func() string { return read(qrcode.NewQRCodeReader(), img("qr-euckr"), nil) }},
+		{"qr-r-big5", func() string { return read(qrcode.NewQRCodeReader(), img("qr-big5"), nil) }},
+		{"qr-r-sjis-byte", func() string { return read(qrcode.NewQRCodeReader(), img("qr-sjis-byte"), nil) }},
+		{"qr-r-1251", func() string { return read(qrcode.NewQRCodeReader(), img("qr-1251"), nil) }},
+		{"qr-r-hint-charset", func() string {
+			return read(qrcode.NewQRCodeReader(), img("qr-pure"), D{gozxing.DecodeHintType_PURE_BARCODE: true, gozxing.DecodeHintType_CHARACTER_SET: "UTF-16BE"})
+		}},
+		{"bm-parse-a", func() string { return parseRoundTrip(37, 11, 3) }},
+		{"bm-parse-b", func() string { return parseRoundTrip(64, 5, 7) }},
+		{"bm-ops", func() string {
+			m, _ := gozxing.NewBitMatrix(70, 9)
+			for i := 0; i < 70*9; i += 5 {
+				m.Set(i%70, i/70)
+			}
+			m.SetRegion(30, 2, 36, 4)
+			m.Rotate180()
+			m.Rotate90()
+			c, _ := gozxing.NewBitMatrix(m.GetWidth(), m.GetHeight())
+			for y := 0; y < m.GetHeight(); y++ {
+				c.SetRow(y, m.GetRow(y, nil))
+			}
+			c.FlipAll()
+			m.Xor(c)
+			return hashM(m) + hashM(c) + fmt.Sprint(c.GetEnclosingRectangle(), c.GetTopLeftOnBit(), c.GetBottomRightOnBit())
+		}},
+		{"lum-views", func() string {
+			g := img("qr-pure")
+			src := gozxing.NewLuminanceSourceFromImage(g)
+			var sb strings.Builder
+			for _, v := range []gozxing.LuminanceSource{src, src.Invert()} {
+				if c, e := v.Crop(1, 2, v.GetWidth()-3, v.GetHeight()-4); e == nil {
+					v = c
+				}
+				if r, e := v.RotateCounterClockwise(); e == nil {
+					v = r
+				}
+				h := fnv.New64a()
+				h.Write(v.GetMatrix())
+				row, _ := v.GetRow(1, nil)
+				h.Write(row)
+				fmt.Fprintf(&sb, "%dx%d:%x;", v.GetWidth(), v.GetHeight(), h.Sum64())
+			}
+			for _, mk := range []func(gozxing.LuminanceSource) gozxing.Binarizer{gozxing.NewGlobalHistgramBinarizer, gozxing.NewHybridBinarizer} {
+				bm, e := mk(src).GetBlackMatrix()
+				if e != nil {
+					sb.WriteString(errKind(e))
+				} else {
+					sb.WriteString(hashM(bm))
+				}
+			}
+			return sb.String()
 		}},
 
 		{"rs-qr", func() string { return rsRoundTrip(reedsolomon.GenericGF_QR_CODE_FIELD_256, 19, 7, 256) }},
